@@ -6,7 +6,8 @@
 //! rational arithmetic in tools/props/c13.py), `term` (any square matrix: the call must return, `Ok`
 //! or `Err`, never panic, never hang), `sym` (small symmetric integer matrices — exact zeros and ties in the
 //! iterates; judged for accuracy by the plug-in only when its own reference computation finds the matrix inside
-//! the accuracy quantifier, otherwise like `term`), `shape` (non-square / empty: `NonSquareMatrix`).
+//! the accuracy quantifier, otherwise like `term`), `shape` (non-square / empty: rejected, i.e. any `Err`; the statement
+//! names no error kind, the observation keeps it for information only).
 //! Hardening halves: `nsym` (non-symmetric S D S^-1 built exactly from small integer data, triangular, Markov:
 //! a strictly dominant real eigenvalue with gap <= 1/2 by construction, re-checked by the plug-in's own reference;
 //! must succeed; residual clause judged exactly), `gen` (small non-symmetric integer matrices, judged like `nsym` when
@@ -142,7 +143,7 @@ fn other_containers(h: usize, w: usize, v: &[f64], es: f64) -> Vec<(&'static str
 
 /// ragged nested vectors: every row-length tuple in 0..=3 over 2 and 3 rows with at least one row differing from
 /// the first (this includes tuples whose total equals rows x first length, e.g. (2,1,3)); entries from the request.
-/// Each must be refused as `InconsistentRowLengths`, owned and borrowed.
+/// Each must be refused (any `Err`), owned and borrowed.
 fn ragged_verdict(v: &[f64], es: f64) -> Result<(), String> {
     let pool: Vec<f64> = if v.is_empty() { vec![1.0, 2.0, 3.0] } else { v.to_vec() };
     for rows in 2..=3usize {
@@ -167,8 +168,8 @@ fn ragged_verdict(v: &[f64], es: f64) -> Result<(), String> {
                     ("Vec<Vec<f64>>", catch(move || power_method(owned, es))),
                 ] {
                     match r {
-                        Some(Err(Arr2DError::InconsistentRowLengths)) => {}
-                        Some(Err(e)) => return Err(format!("ragged {name} with row lengths {lens:?}: error kind {e:?}, expected InconsistentRowLengths")),
+                        // the statement says "rejected" and names no error kind: any `Err` is a rejection
+                        Some(Err(_)) => {}
                         Some(Ok(_)) => return Err(format!("ragged {name} with row lengths {lens:?} accepted")),
                         None => return Err(format!("ragged {name} with row lengths {lens:?}: panic")),
                     }
@@ -224,19 +225,22 @@ pub fn run(line: &str) -> Obs {
                 }
             }
         }
-        Run::Done(Err(Arr2DError::NonSquareMatrix)) => {
-            if square { Err(format!("square {h}x{w} input rejected as non-square")) } else { Ok(()) }
-        }
-        Run::Done(Err(Arr2DError::NoConvergence)) => {
+        // The statement names no error kind: "non-square and empty inputs are rejected" (any `Err` is a rejection),
+        // a square matrix built inside the quantifier must yield an eigenpair (any `Err` is a failure), and on every
+        // other square input "the call returns or fails in bounded time" (any `Err` is fine; the halves `sym` and `gen`
+        // are judged by the plug-in's own reference when it finds the matrix inside the quantifier).
+        Run::Done(Err(e)) => {
             if !square {
-                Err(format!("{h}x{w} input: expected NonSquareMatrix"))
+                Ok(())
             } else if must_succeed {
-                Err("no convergence on a matrix with a strictly dominant eigenvalue, gap <= 1/2, built inside the quantifier".into())
+                Err(match e {
+                    Arr2DError::NoConvergence => "no convergence on a matrix with a strictly dominant eigenvalue, gap <= 1/2, built inside the quantifier".to_string(),
+                    e => format!("a square {h}x{w} matrix with a strictly dominant eigenvalue, gap <= 1/2, built inside the quantifier, is refused: {e:?}"),
+                })
             } else {
                 Ok(())
             }
         }
-        Run::Done(Err(e)) => Err(format!("unexpected error kind {e:?}")),
     };
     // every accepted container type answers the same (skipped after a hang: each further call would hang too; a call
     // that ran into the iteration cap is the slowest kind of request, so only one in eight of those is repeated)
@@ -244,7 +248,8 @@ pub fn run(line: &str) -> Obs {
     let sampled = line.bytes().fold(0u32, |a, b| a.wrapping_mul(31).wrapping_add(b as u32)) % 8 == 0;
     if verdict.is_ok() && !matches!(r, Run::Hang) && (!capped || sampled) {
         for (name, o) in other_containers(h, w, &v, es) {
-            if o != obs {
+            // two refusals are the same answer whatever their kind (the statement names none)
+            if o != obs && !(o.starts_with("err") && obs.starts_with("err")) {
                 verdict = Err(format!("container {name} answers `{}` but &Arr2D<f64> answers `{}` for the same numbers",
                     &o[..o.len().min(60)], &obs[..obs.len().min(60)]));
                 break;
